@@ -276,6 +276,7 @@ def run(ctx):
         fresh = any(r_[0] == "call" and "environment::Environment" in r_[1] for r_ in roots_)
         ctx.inst("C13.R10", "builtin#environment", True if from_param else (False if fresh else None), "BuiltInFunction::call receives %s (must be the caller's environment: higher-order built-ins evaluate their callbacks in it)" % [r_[:2] for r_ in roots_], fcm.loc(b_))
     c04.parameters_last(ctx, "C13.R10", core)
+    c04.positional_binding(ctx, "C13.R10", core)
 
     # ---------------- R4 depth policy
     ctx.rule("C13.R4", "equivalent forms account call depth alike: the operator forms and the built-in forms pass the same depth to the callback", floor=2)
@@ -370,11 +371,26 @@ def call_protocol(ctx, rid, core, sites=None):
         elif label == "Call":
             shape = ("spread-flattened arguments",)
         shapes[key] = shape
+
+        def longest_vec(t_):
+            if not isinstance(t_, tuple):
+                return 0
+            here = len(t_) - 1 if t_ and t_[0] == "vec" else 0
+            return max([here] + [longest_vec(x_) for x_ in t_])
+        too_many = None
+        if label in ELEMENTWISE and longest_vec(a) > 2:
+            too_many = "an element-wise caller builds an argument list of %d values: the callback is handed something besides the element and its index" % longest_vec(a)
+        elif label == "Reduce" and longest_vec(a) > 3:
+            too_many = "reduce builds an argument list of %d values: more than accumulator, element and index" % longest_vec(a)
         if label in ELEMENTWISE and in_loop and fn in (BINOP, BCALL) and not (fn == BINOP and shape == ("plain", 1) and label == "Via"):
             ok = None if shape is None else (shape[0] == "indexed" and shape[1] == 2 and all(shape[2:]))
-            ctx.inst(rid, key, ok, "argument list %s -> %s (want [item, Number(idx)] iff arity().can_accept(2), else [item])" % (S.show(a)[:160], shape), H.loc(n))
+            if too_many:
+                ok = False
+            ctx.inst(rid, key, ok, "argument list %s -> %s (want [item, Number(idx)] iff arity().can_accept(2), else [item])%s" % (S.show(a)[:160], shape, "; " + too_many if too_many else ""), H.loc(n))
         elif label == "Reduce":
             ok = None if shape is None else (shape[0] == "indexed" and shape[1] == 3 and all(shape[2:]))
+            if too_many:
+                ok = False
             ctx.inst(rid, key, ok, "argument list -> %s (want [acc, item, Number(idx)] iff can_accept(3), else [acc, item])" % (shape,), H.loc(n))
         elif label == "Call":
             ctx.inst(rid, key, True, "direct call: evaluated arguments, spreads flattened", H.loc(n))
